@@ -77,7 +77,7 @@ manifest = {
     }],
     "checks": checks,
     "not_applicable": [{"property_id": k, "reason": v} for k, v in NA.items()],
-    "notes": "Genuine defects found on the pinned tree were repaired in /repo with nine 'fix:' commits (listed as fixed: in /verif/known_findings.txt); one defect (C01, Get Endpoint ID response length table, pinned by an existing test) is a known finding. Self-tests: ./check selftest determinism | replays | mutants | seeded (50 own edits; 117 breaking + 44 benign changes written by independent sub-agents, see DESIGN.md section 12).",
+    "notes": "Genuine defects found on the pinned tree were repaired in /repo with nine 'fix:' commits (listed as fixed: in /verif/known_findings.txt); one defect (C01, Get Endpoint ID response length table, pinned by an existing test) is a known finding. Self-tests: ./check selftest determinism | replays | mutants | seeded (50 own edits; 117 breaking + 56 benign changes written by independent sub-agents, see DESIGN.md section 12).",
 }
 json.dump(manifest, open(os.path.join(HERE, "MANIFEST.json"), "w"), indent=1)
 print("wrote MANIFEST.json with", len(checks), "checks,", len(NA), "not_applicable")
